@@ -25,6 +25,14 @@ Definition fmt (ts : list Z) := map format_datetime ts.
 """
 
 
+COQ_HEADER_FB = COQ_HEADER.replace(" proofs.C13_table.", ".").replace("Definition lit ", """Definition op_of (o : dtop) : FS.gen.OpsGen.Op :=
+  match o with
+  | OpEq => FS.gen.OpsGen.OpEq | OpNe => FS.gen.OpsGen.OpNe | OpGt => FS.gen.OpsGen.OpGt | OpGte => FS.gen.OpsGen.OpGte
+  | OpLt => FS.gen.OpsGen.OpLt | OpLte => FS.gen.OpsGen.OpLte | OpEeq => FS.gen.OpsGen.OpEeq | OpEne => FS.gen.OpsGen.OpEne
+  end.
+Definition lit """, 1)
+
+
 def gen_literals(rng, n):
     """(text, precision, (y,m,d,H,M,S), separator, quoted)"""
     dates = [(2024, 2, 29), (2023, 12, 31), (2024, 1, 1), (2024, 3, 1), (1970, 1, 2), (2000, 2, 29), (2023, 2, 28), (2038, 1, 19), (1999, 12, 31)]
@@ -110,7 +118,7 @@ def run(ctx):
     # the modified column
     rows, r = qlib.select(ctx.impl, "name, modified", "from dt", cwd=ctx.scratch)
     st = dict(evaluations=0, agreed=0, distinct=set(), samples=[], hist=collections.Counter())
-    res = coq_eval(COQ_HEADER, ["fmt %s" % glist(["%d" % t for t in grid], "Z")], ctx.scratch, tag="c13f")
+    res = coq_eval(COQ_HEADER, ["fmt %s" % glist(["%d" % t for t in grid], "Z")], ctx.scratch, tag="c13f", fallback_header=COQ_HEADER_FB)
     model_fmt = ["".join(map(chr, x)) for x in parse_nested(res[0])]
     mf = dict(zip(grid, model_fmt))
     if rows is None:
@@ -140,7 +148,7 @@ def run(ctx):
     tl = glist(["%d" % t for t in grid], "Z")
     uniq = sorted({text for text, *_ in lits})
     mres = coq_eval(COQ_HEADER + "Definition ts : list Z := %s.\n" % tl, ["(lit %d %s, verdicts %d %s ts)" % (day0, gstr(x), day0, gstr(x)) for x in uniq],
-                    ctx.scratch, tag="c13v", shard=6)
+                    ctx.scratch, tag="c13v", shard=6, fallback_header=COQ_HEADER_FB + "Definition ts : list Z := %s.\n" % tl)
     model = {}
     for x, txt in zip(uniq, mres):
         cls, a, b, vs = parse_nested(txt)
@@ -192,7 +200,7 @@ def run(ctx):
             strs.append("".join(rng.choice("0123456789-: +") for _ in range(k)))
         strs = sorted(set(strs))
         hres = h.batch([{"cmd": "datetime", "s": x} for x in strs])
-        mres = coq_eval(COQ_HEADER, ["lit %d %s" % (day0, gstr(x)) for x in strs], ctx.scratch, tag="c13h", shard=60)
+        mres = coq_eval(COQ_HEADER, ["lit %d %s" % (day0, gstr(x)) for x in strs], ctx.scratch, tag="c13h", shard=60, fallback_header=COQ_HEADER_FB)
         for x, hr, txt in zip(strs, hres, mres):
             st["evaluations"] += 1
             cls, a, b = parse_nested(txt)
